@@ -330,6 +330,32 @@ def r9_builtin_types(run, F):
     run.floor("R9-BUILTIN-TYPES", 2, "builtins that expand directly to a literal (line!, file!)")
 
 
+def r11_branch_targets(run, F):
+    """The entry block of a function must not have predecessors, and the builder is positioned in the entry block when a function
+    body starts.  A branch in the generator therefore never targets "the block the builder is in" (LLVMGetInsertBlock) or the
+    function's first block: every target of LLVMBuildBr / LLVMBuildCondBr is produced by LLVMAppendBasicBlockInContext or by the
+    label table (find_or_append_labeled_block).  Reusing an empty current block as a loop header is valid everywhere except where
+    it matters: a function whose first statement is a looped block."""
+    from rules import origins
+    n = 0
+    for p, b in sorted(F.lib.bodies.items()):
+        if "hir" not in b or not F.rel(b["file"]).endswith("alpha/generator.rs"):
+            continue
+        for c in hirq.calls(b["hir"]):
+            cn = hirq.callee(c) or ""
+            if not cn.endswith(("LLVMBuildBr", "LLVMBuildCondBr")):
+                continue
+            targets = c["a"][1:] if cn.endswith("LLVMBuildBr") else c["a"][2:]
+            for i, a in enumerate(targets):
+                n += 1
+                prod = origins.producers(b["hir"], a, b.get("params", ()))
+                bad = sorted(str(k[1]).split("::")[-1] for k in prod if k[0] == "call" and str(k[1]).split("::")[-1] in
+                             ("LLVMGetInsertBlock", "LLVMGetEntryBasicBlock", "LLVMGetFirstBasicBlock", "LLVMGetPreviousBasicBlock"))
+                run.ob("R11-BRANCH-TARGETS-FRESH", "%s|%s target %d (order %d)" % (p.split(" as ")[0].strip("<").split("::")[-1], cn.split("::")[-1], i, n), not bad, F.where(b, c),
+                       "a branch targets a block obtained from %s: it may be the function's entry block, which must not have predecessors (the LLVM verifier aborts the compiler)" % bad)
+    run.ob("R11-BRANCH-TARGETS-FRESH", "scan", n >= 8, "src/alpha/generator.rs", "%d branch targets examined (8 counted)" % n)
+
+
 def check(run):
     F = run.facts("B")
     r9_builtin_types(run, F)
@@ -340,10 +366,13 @@ def check(run):
     r5_registration(run, F)
     r6_symbol_namespace(run, F)
     r8_call_convention(run, F)
+    r11_branch_targets(run, F)
     # aggregate constants are not inspected by the in-process verifier: an insertvalue chain of constants with a wrong
     # index folds into a constant of the wrong shape that only the textual IR reader rejects (shared with C01.R7)
     from props import c01
     c01.r7_member_index(run, F)
+    # the same blind spot: a cast whose operand keeps its own LLVM type is a constant of the wrong type inside an aggregate (C01.R3)
+    c01.r3b_cast_always_converted(run, F)
     # "the linked program defines every function the source defines": a failed incremental link must not pass for a success
     from props import c02 as _c02
     _c02.r10b_default_diagnostic_handler(run, F)
